@@ -62,6 +62,10 @@ def shard_main(prop, tier, seed, shard, nshards, outfile):
     ctx = Ctx(prop, tier, seed, shard, nshards)
     t0 = time.time()
     budget = tier_get(getattr(mod, "BUDGET_S", None), tier, None)
+    if budget:
+        # soft stop; case lists are finite and sized to finish well inside it on an idle machine, so a slower or
+        # loaded machine gets head-room instead of an INCONCLUSIVE from unmet minimums
+        budget *= float(os.environ.get("VERIF_BUDGET_SCALE", "2"))
     setup = getattr(mod, "setup", None)
     if setup:
         setup(ctx)
@@ -103,6 +107,9 @@ def run_check(prop, tier):
     seed = int(os.environ.get("VERIF_SEED", "0"))
     nshards = tier_get(getattr(mod, "NSHARDS", None), tier, 16 if tier == "thorough" else 8)
     timeout = tier_get(getattr(mod, "TIMEOUT_S", None), tier, 3600 if tier == "thorough" else 300)
+    # wall-clock watchdog only (its firing is INCONCLUSIVE, never a verdict): keep it generous so a loaded machine
+    # cannot turn a healthy run into a non-zero exit
+    timeout = max(timeout, 3600 if tier == "thorough" else 900) * float(os.environ.get("VERIF_TIMEOUT_SCALE", "1"))
     t0 = time.time()
     tmp = tempfile.mkdtemp(prefix=f"vf-{prop}-")
     procs = []
